@@ -204,6 +204,14 @@ theorem Rel.compareLists (d : Nat) (xs ys : List TId) :
       rel_all hle hrec
       all_goals exact ih _
 
+theorem Rel.thunkBody (p : Pending) (d : Nat) :
+    Rel (thunkBody { maxStack := s } r p d) (thunkBody { maxStack := s' } r' p d) := by
+  unfold Rsj.Eval.thunkBody
+  rel_all hle hrec
+  all_goals first
+    | exact Rel.binaryOp hle hrec _ _ _ _ _
+    | exact Rel.wantThunk hle hrec _ _
+
 theorem Rel.step (t : Task) :
     Rel (step { maxStack := s } r t) (step { maxStack := s' } r' t) := by
   unfold Rsj.Eval.step
@@ -220,6 +228,7 @@ theorem Rel.step (t : Task) :
     | exact Rel.objectMember hrec _ _ _ _
     | exact Rel.sliceArg hrec _ _ _
     | exact Rel.builtinCall hrec _ _ _
+    | exact Rel.thunkBody hle hrec _ _
 end
 
 /-- The whole evaluator under limits `s ≤ s'`, same fuel. -/
